@@ -19,7 +19,7 @@ RULE = ("cases = generated 3D plotfiles with properly nested levels on even bloc
 ASSUMPTIONS = ["float reassociation only: tolerance 1e-10 * sum of |terms| (one lost or doubled cell "
                "is >= 1e-4 of that)", "pool shim M1 with shuffled schedules",
                "blocking factor even (statement's own restriction)"]
-REQUIRED_OBS = {"integrals": 100, "mixed_tilings": 2, "mixed_fine_level_tilings": 2, "uniform_boxes_offset_patches": 1, "cli_runs": 30, "calls:compute_box_array": 30,
+REQUIRED_OBS = {"integrals": 100, "mixed_tilings": 2, "mixed_fine_level_tilings": 2, "uniform_boxes_offset_patches": 1, "cli_runs": 30,
                 "limited": 30, "volfrac": 30}
 TIMEOUT = {"quick": 600, "thorough": 3000}
 
